@@ -626,6 +626,9 @@ func runC02case(base string, c c02case, rep *hx.Report) c02result {
 		d.completed = completed
 		d.mu.Unlock()
 	}
+	if c.seed%2 == 0 {
+		ro.ProgressDeltaFn = func(string, int64) {} // the byte-progress read path (readFullWithTimeoutDelta)
+	}
 	ro.FileDoneFn = func(rel string, ok bool) {
 		d.mu.Lock()
 		d.finsObs = append(d.finsObs, fmt.Sprintf("%s:%v", rel, ok))
